@@ -213,8 +213,11 @@ type SResult struct {
 }
 
 // RunSProgram executes feeder + library helpers + one reader per output.
-func RunSProgram(rng *core.Rng, p SProgram) *SResult {
+func RunSProgram(rng *core.Rng, p SProgram) *SResult { return RunSProgramForced(rng, p, nil, false) }
+
+func RunSProgramForced(rng *core.Rng, p SProgram, forced []int, systematic bool) *SResult {
 	s := NewSched(rng)
+	s.Forced, s.Systematic = forced, systematic
 	defer s.Deactivate()
 	res := &SResult{Sched: s, Program: p}
 	Q := col.Queue[string](notation)
